@@ -543,6 +543,8 @@ class Evaluator:
         nt = self.namedtuple_items(val)
         if nt is not None:
             return nt
+        if isinstance(val, tuple) and val and val[0] == "ifexp" and val[2] != NORET and val[3] != NORET and (is_const(val[2], None) != is_const(val[3], None)):
+            return self.known_items(val[3] if is_const(val[2], None) else val[2])   # unpacking None raises
         # zip / enumerate / reversed over sequences of statically known (equal) length
         if isinstance(val, tuple) and val and val[0] == "call" and val[1][0] == "name" and not val[3]:
             nm = val[1][1]
@@ -792,6 +794,9 @@ class Evaluator:
                 return v
         if base[0] == "name":
             return ("name", self.p.canonical(base[1] + "." + name))
+        if base[0] == "ifexp" and base[2] != NORET and base[3] != NORET and (is_const(base[2], None) != is_const(base[3], None)):
+            # attribute access on None raises: on every path that continues, the value comes from the arm that is not None
+            return self.attr(base[3] if is_const(base[2], None) else base[2], name, fr)
         if base[0] == "ifexp" and base[2] != NORET and base[3] != NORET:
             a, b = self.attr(base[2], name), self.attr(base[3], name)
             if a[0] != "attr" or b[0] != "attr":
@@ -846,6 +851,9 @@ class Evaluator:
         return ("slice", f(e.lower), f(e.upper), f(e.step))
 
     def index(self, base, idx):
+        if base[0] == "ifexp" and base[2] != NORET and base[3] != NORET and (is_const(base[2], None) != is_const(base[3], None)):
+            # subscripting None raises: on every path that continues, the value comes from the arm that is not None
+            return self.index(base[3] if is_const(base[2], None) else base[2], idx)
         if base[0] == "name":
             tb = self.const_table(base)
             if tb is not None:
@@ -1561,7 +1569,17 @@ class Evaluator:
             r = self.apply_closure(vf, tuple(largs), lkw)
             rec["body_summary"] = getattr(self, "last_closure_summary", None)
         else:
-            r = ("call", vf, tuple(largs), lkw)
+            # functools.partial(...) of a repo function / a module-level private function mapped over lanes: applied like any other call
+            r = None
+            if vf[0] in ("partial", "name") and len(self._inlining) < self.max_inline_depth + 2:
+                try:
+                    r = self.call_term(vf, tuple(largs), lkw, None, None)
+                    if r == ("call", vf, tuple(largs), lkw) or (isinstance(r, tuple) and r[:2] == ("call", vf)):
+                        r = None
+                except Exception:
+                    r = None
+            if r is None:
+                r = ("call", vf, tuple(largs), lkw)
         if r is None:
             return None
         rec["body"] = r
